@@ -303,3 +303,180 @@ def bind_like(fi, args, kwargs):
 
 def fmt_status(st, out):
     return f"{st}: {short(out, 200)}"
+
+
+def require_unless_failed(ctx, rule, minimum, failed_rules):
+    """Anti-vacuity count that applies to a *passing* run: when obligations of `failed_rules` already failed
+    (runs aborted early, so fewer dependent obligations exist) the failure is the verdict and must not be
+    masked by an analysis error."""
+    if any(f.rule in failed_rules for f in ctx.findings):
+        return
+    ctx.require_instances(rule, minimum)
+
+
+# --------------------------------------------------------------------------------------------------
+# static (AST) form of the same taint rule, for functions that are not interpreted by any rule
+# --------------------------------------------------------------------------------------------------
+LAPACK_FACTORISATIONS = {"svd": ("U", "s", "Vt"), "qr": ("Q", "R"), "eig": ("w", "V"), "eigh": ("w", "V"),
+                         "schur": ("T", "Z"), "hessenberg": ("H", "Q"), "rq": ("R", "Q"), "lu": ("P", "L", "U"),
+                         "qz": ("AA", "BB", "Q", "Z")}
+_VIEW_METHODS = {"transpose", "copy", "conj", "conjugate", "astype", "reshape"}
+_VIEW_FUNCS = {"numpy.transpose", "numpy.array", "numpy.asarray", "numpy.copy", "numpy.ascontiguousarray",
+               "numpy.conj", "numpy.conjugate", "numpy.real"}
+
+
+def attr_chain(node):
+    out = []
+    while isinstance(node, ast.Attribute):
+        out.append(node.attr)
+        node = node.value
+    if isinstance(node, ast.Name):
+        out.append(node.id)
+        return list(reversed(out))
+    return None
+
+
+def import_table(fi):
+    """local name -> canonical dotted external path (module imports + function-local imports)"""
+    tab = {}
+    for local, imp in fi.module.imports.items():
+        if imp[0] == "extmod":
+            tab[local] = imp[1]
+        elif imp[0] == "ext":
+            tab[local] = f"{imp[1]}.{imp[2]}" if imp[1] else imp[2]
+    for n in ast.walk(fi.node):
+        if isinstance(n, ast.Import):
+            for al in n.names:
+                tab[al.asname or al.name.split(".")[0]] = al.name if al.asname else al.name.split(".")[0]
+        elif isinstance(n, ast.ImportFrom) and n.module and not n.level:
+            for al in n.names:
+                tab.setdefault(al.asname or al.name, f"{n.module}.{al.name}")
+    return tab
+
+
+def canonical_callee(fi, call, tab=None):
+    """canonical dotted path of an external callee ('numpy.linalg.svd') or None"""
+    tab = tab if tab is not None else import_table(fi)
+    ch = attr_chain(call.func)
+    if not ch or ch[0] not in tab:
+        return None
+    parts = ".".join([tab[ch[0]]] + ch[1:]).split(".")
+    if parts[0] == "np":
+        parts[0] = "numpy"
+    return ".".join(parts)
+
+
+def resolves_to(prog, fi, call, target):
+    """does the callee Name/Attribute of `call` resolve to the repository function `target`?"""
+    f = call.func
+    if isinstance(f, ast.Name):
+        nm = f.id
+        loc = None
+        for n in ast.walk(fi.node):       # function-local `from x import real_contract`
+            if isinstance(n, ast.ImportFrom):
+                for al in n.names:
+                    if (al.asname or al.name) == nm:
+                        t = prog.resolve_module(fi.module, n.module, n.level)
+                        if t is not None:
+                            loc = prog.lookup_export(t.name, al.name)
+        if loc is None:
+            loc = fi.module.functions.get(nm)
+        if loc is None:
+            imp = fi.module.imports.get(nm)
+            if imp and imp[0] == "name":
+                loc = prog.lookup_export(imp[1], imp[2])
+        return loc is target
+    if isinstance(f, ast.Attribute) and f.attr == target.name and isinstance(f.value, ast.Name):
+        imp = fi.module.imports.get(f.value.id)
+        if imp and imp[0] == "module":
+            return prog.lookup_export(imp[1], f.attr) is target
+    return False
+
+
+def _view_root(fi, e, tab):
+    """(root Name id, number of transpositions) when e is a view/copy chain over a single name, else None"""
+    t = 0
+    while True:
+        if isinstance(e, ast.Name):
+            return e.id, t
+        if isinstance(e, ast.Subscript):
+            e = e.value
+        elif isinstance(e, ast.Attribute) and e.attr == "T":
+            t += 1
+            e = e.value
+        elif isinstance(e, ast.Call) and isinstance(e.func, ast.Attribute) and e.func.attr in _VIEW_METHODS \
+                and canonical_callee(fi, e, tab) is None:
+            t += e.func.attr == "transpose"
+            e = e.func.value
+        elif isinstance(e, ast.Call) and canonical_callee(fi, e, tab) in _VIEW_FUNCS and e.args:
+            t += canonical_callee(fi, e, tab) == "numpy.transpose"
+            e = e.args[0]
+        else:
+            return None
+
+
+def static_contract_sites(prog, fi):
+    """Flow-insensitive AST taint for one function: names bound to outputs of LAPACK factorisations are
+    tainted, taint flows through slicing / transposition / copies / plain assignment and tuple unpacking;
+    returns [(call node, construct, tainted)] for every call of utils.real_contract in fi."""
+    target = prog.func("utils", "real_contract")
+    tab = import_table(fi)
+    taint = {}          # name -> (kind, factor name, transposed parity)
+    assigns = [n for n in ast.walk(fi.node) if isinstance(n, ast.Assign)]
+    changed = True
+    while changed:
+        changed = False
+        for a in assigns:
+            v = a.value
+            new = {}
+            if isinstance(v, ast.Call):
+                c = canonical_callee(fi, v, tab)
+                kind = c.split(".")[-1] if c and (c.startswith("numpy.linalg.") or c.startswith("scipy.linalg.")) else None
+                if kind in LAPACK_FACTORISATIONS:
+                    names = LAPACK_FACTORISATIONS[kind]
+                    for t in a.targets:
+                        if isinstance(t, (ast.Tuple, ast.List)):
+                            for i, e in enumerate(t.elts):
+                                if isinstance(e, ast.Name):
+                                    new[e.id] = (kind, names[i] if i < len(names) else f"#{i}", 0)
+                        elif isinstance(t, ast.Name):
+                            new[t.id] = (kind, "result", 0)
+            r = _view_root(fi, v, tab)
+            if r is not None and r[0] in taint:
+                k, fname, par = taint[r[0]]
+                for t in a.targets:
+                    if isinstance(t, ast.Name):
+                        new[t.id] = (k, fname, (par + r[1]) % 2)
+            for k, val in new.items():
+                if taint.get(k) != val and k not in taint:
+                    taint[k] = val
+                    changed = True
+    out = []
+    for n in ast.walk(fi.node):
+        if isinstance(n, ast.Call) and resolves_to(prog, fi, n, target):
+            arg0 = n.args[0] if n.args else next((k.value for k in n.keywords if k.arg == target.params()[0]), None)
+            r = _view_root(fi, arg0, tab) if arg0 is not None else None
+            if r is not None and r[0] in taint:
+                k, fname, par = taint[r[0]]
+                tr = "^T" if (par + r[1]) % 2 else ""
+                out.append((n, f"real_contract of LAPACK {k} factor {fname}{tr}", True))
+            else:
+                out.append((n, "real_contract of a value that is not a raw LAPACK factor", False))
+    return out
+
+
+def callers_of_real_contract(prog, modules):
+    """[FuncInfo] of every function (incl. methods / nested) of the given modules with a real_contract call"""
+    target = prog.func("utils", "real_contract")
+    out = []
+    for mn in modules:
+        mod = prog.module(mn)
+        for fi in mod.all_funcs:
+            own = [n for n in ast.walk(fi.node) if isinstance(n, ast.Call) and resolves_to(prog, fi, n, target)]
+            # calls inside nested defs are attributed to the nested function
+            nested_nodes = set()
+            for sub in getattr(fi, "nested", {}).values():
+                nested_nodes |= {id(x) for x in ast.walk(sub.node)}
+            if any(id(n) not in nested_nodes for n in own):
+                out.append(fi)
+    return out
